@@ -108,6 +108,8 @@ package datamodel
 //@ interface Node.LookupBySegment(seg) (r, err)
 //@   assigns nothing
 //@   ensures err == nil ==> r != nil
+//@   ensures vkind(recv.val) == Kind_Map && err == nil ==> 0 <= vidx(recv.val, segstr(seg)) && vidx(recv.val, segstr(seg)) < vlen(recv.val) && r.val == vchild(recv.val, vidx(recv.val, segstr(seg)))
+//@   ensures vkind(recv.val) == Kind_List && err == nil ==> segidxok(seg) && 0 <= segidx(seg) && segidx(seg) < vlen(recv.val) && r.val == vchild(recv.val, segidx(seg))
 
 //@ interface Node.LookupByNode(key) (r, err)
 //@   assigns nothing
@@ -167,6 +169,10 @@ package datamodel
 
 //@ pure func itoa(i mathint) string
 //@ pure func segstr(ps PathSegment) string = ps.i < 0 ? ps.s : itoa(ps.i)
+//@ pure func atoiok(s string) bool
+//@ pure func atoi(s string) mathint
+//@ pure func segidxok(ps PathSegment) bool = ps.i >= 0 || atoiok(ps.s)
+//@ pure func segidx(ps PathSegment) mathint = ps.i >= 0 ? ps.i : atoi(ps.s)
 
 //@ func PathSegmentOfString(s) (r)
 //@   assigns nothing
@@ -180,6 +186,8 @@ package datamodel
 //@ func (PathSegment).Index() (r, err)
 //@   assigns nothing
 //@   ensures[C14] ps.i >= 0 ==> err == nil && r == ps.i
+//@   ensures[C14,C16] (err == nil) == segidxok(ps)
+//@   ensures[C14,C16] err == nil ==> r == segidx(ps)
 //@ func (PathSegment).Equals(o) (r)
 //@   assigns nothing
 //@   ensures[C14] x.i >= 0 && o.i >= 0 ==> r == (x.i == o.i)
@@ -225,56 +233,123 @@ package datamodel
 //@   ensures[C14] len(p.segments) > 0 ==> s == p.segments[0] && len(r.segments) == len(p.segments) - 1 && (forall j mathint :: 0 <= j && j < len(r.segments) ==> r.segments[j] == p.segments[j+1])
 //@   ensures[C14] len(p.segments) == 0 ==> len(r.segments) == 0 && s.i == 0 - 1
 
-// ---- builders ----
+// ---- builders and assemblers: the abstract assembly protocol (C16; used by every client of the
+//      assembler interfaces) ----
+//
+// Constructors of the abstract value model (free constructors; vapp/vappl append one entry).
+// The kind of an appended value is deliberately left unspecified: a map value must have distinct
+// string keys (vkey_is_string, vidx_complete), which an arbitrary sequence of appends need not.
+//@ pure func vemptymap() Val
+//@ pure func vemptylist() Val
+//@ pure func vnullv() Val
+//@ pure func vboolv(b bool) Val
+//@ pure func vintv(i mathint) Val
+//@ pure func vfloatv(f float64) Val
+//@ pure func vstring(s string) Val
+//@ pure func vbytesv(b []byte) Val
+//@ pure func vlinkv(l Link) Val
+//@ pure func vapp(a Val, k Val, v Val) Val
+//@ pure func vappl(a Val, v Val) Val
+//@ axiom vempty_def: vkind(vemptymap()) == Kind_Map && vlen(vemptymap()) == 0 && vkind(vemptylist()) == Kind_List && vlen(vemptylist()) == 0
+//@ axiom vlinkv_def: forall l Link :: vkind(vlinkv(l)) == Kind_Link && vlink(vlinkv(l)) == l
+//@ axiom vstring_def: forall s string :: vkind(vstring(s)) == Kind_String && vstr(vstring(s)) == s
+//@ axiom vapp_len: forall a Val, k Val, v Val :: vlen(a) < 1099511627776 ==> vlen(vapp(a, k, v)) == vlen(a) + 1
+//@ axiom vapp_last: forall a Val, k Val, v Val :: vchild(vapp(a, k, v), vlen(a)) == v && vkey(vapp(a, k, v), vlen(a)) == k
+//@ axiom vapp_keep: forall a Val, k Val, v Val, i mathint :: 0 <= i && i < vlen(a) ==> vchild(vapp(a, k, v), i) == vchild(a, i) && vkey(vapp(a, k, v), i) == vkey(a, i)
+//@ axiom vappl_len: forall a Val, v Val :: vlen(a) < 1099511627776 ==> vlen(vappl(a, v)) == vlen(a) + 1
+//@ axiom vappl_last: forall a Val, v Val :: vchild(vappl(a, v), vlen(a)) == v
+//@ axiom vappl_keep: forall a Val, v Val, i mathint :: 0 <= i && i < vlen(a) ==> vchild(vappl(a, v), i) == vchild(a, i)
+//
+// Ghost state of the protocol. A NodeAssembler is a slot: the root slot of a builder (role 0), the
+// key slot (1) or value slot (2) of a map assembler, or the value slot (3) of a list assembler.
+// Completing a slot (a scalar Assign*, AssignNode, or Finish of the container begun in it) records
+// the value in the slot and, for entry slots, extends the parent's accumulated value. Handles
+// returned by Begin*/Assemble* are modelled as fresh objects (assumption recorded in /verif).
+//@ ghost field NodeAssembler.role mathint
+//@ ghost field NodeAssembler.pm MapAssembler
+//@ ghost field NodeAssembler.pl ListAssembler
+//@ ghost field NodeAssembler.set bool mutable
+//@ ghost field NodeAssembler.out Val mutable
+//@ ghost field MapAssembler.slot NodeAssembler
+//@ ghost field MapAssembler.acc Val mutable
+//@ ghost field MapAssembler.pend Val mutable
+//@ ghost field MapAssembler.haskey bool mutable
+//@ ghost field ListAssembler.slot NodeAssembler
+//@ ghost field ListAssembler.acc Val mutable
+//
+// A slot's parent container assembler exists before the slot does.
+//@ axiom asm_parent_older: forall na NodeAssembler :: (na.pm == nil || root(na.pm) <= root(na)) && (na.pl == nil || root(na.pl) <= root(na))
+//@ axiom asm_roles: forall na NodeAssembler :: (na.role == 1 || na.role == 2 ==> na.pm != nil) && (na.role == 3 ==> na.pl != nil)
+//@ locs slot(na NodeAssembler) = na.set, na.out, na.pm.acc, na.pm.pend, na.pm.haskey, na.pl.acc
+//@ pred slotdone(na NodeAssembler, x Val) = na.set && na.out == x
+//@   && (na.role == 1 ==> na.pm.haskey && na.pm.pend == x && na.pm.acc == old(na.pm.acc))
+//@   && (na.role == 2 ==> !na.pm.haskey && na.pm.acc == vapp(old(na.pm.acc), old(na.pm.pend), x))
+//@   && (na.role != 1 && na.role != 2 && na.pm != nil ==> na.pm.acc == old(na.pm.acc) && na.pm.pend == old(na.pm.pend) && na.pm.haskey == old(na.pm.haskey))
+//@   && (na.role == 3 ==> na.pl.acc == vappl(old(na.pl.acc), x))
+//@   && (na.role != 3 && na.pl != nil ==> na.pl.acc == old(na.pl.acc))
 
 //@ interface NodePrototype.NewBuilder() (nb)
-//@   assigns nothing
-//@   ensures nb != nil && fresh(nb)
+//@   assigns nb.set, nb.out
+//@   ensures nb != nil && fresh(nb) && nb.role == 0 && nb.pm == nil && nb.pl == nil && !nb.set
 //@ interface NodeBuilder.Build() (n)
 //@   assigns nothing
 //@   ensures n != nil
-
-// ---- assemblers (interface level): only what decoders rely on ----
-// "assigns foreign": an assembler writes its own state and fresh memory, never objects owned by its caller.
+//@   ensures recv.set ==> n.val == recv.out
+//@ interface NodeBuilder.Reset()
+//@   assigns foreign, recv.set, recv.out
+//@   ensures !recv.set
 
 //@ interface NodeAssembler.BeginMap(sizeHint) (ma, err)
-//@   assigns foreign
-//@   ensures err == nil ==> ma != nil
+//@   assigns foreign, ma.acc, ma.pend, ma.haskey
+//@   ensures ma == nil || fresh(ma)
+//@   ensures err == nil ==> ma != nil && ma.slot == recv && ma.acc == vemptymap() && !ma.haskey
 //@ interface NodeAssembler.BeginList(sizeHint) (la, err)
-//@   assigns foreign
-//@   ensures err == nil ==> la != nil
+//@   assigns foreign, la.acc
+//@   ensures la == nil || fresh(la)
+//@   ensures err == nil ==> la != nil && la.slot == recv && la.acc == vemptylist()
 //@ interface NodeAssembler.AssignNull() (err)
-//@   assigns foreign
+//@   assigns foreign, slot(recv)
+//@   ensures err == nil ==> slotdone(recv, vnullv())
 //@ interface NodeAssembler.AssignBool(v) (err)
-//@   assigns foreign
+//@   assigns foreign, slot(recv)
+//@   ensures err == nil ==> slotdone(recv, vboolv(v))
 //@ interface NodeAssembler.AssignInt(v) (err)
-//@   assigns foreign
+//@   assigns foreign, slot(recv)
+//@   ensures err == nil ==> slotdone(recv, vintv(v))
 //@ interface NodeAssembler.AssignFloat(v) (err)
-//@   assigns foreign
+//@   assigns foreign, slot(recv)
+//@   ensures err == nil ==> slotdone(recv, vfloatv(v))
 //@ interface NodeAssembler.AssignString(v) (err)
-//@   assigns foreign
+//@   assigns foreign, slot(recv)
+//@   ensures err == nil ==> slotdone(recv, vstring(v))
 //@ interface NodeAssembler.AssignBytes(v) (err)
-//@   assigns foreign
+//@   assigns foreign, slot(recv)
+//@   ensures err == nil ==> slotdone(recv, vbytesv(v))
 //@ interface NodeAssembler.AssignLink(v) (err)
-//@   assigns foreign
+//@   assigns foreign, slot(recv)
+//@   ensures err == nil ==> slotdone(recv, vlinkv(v))
 //@ interface NodeAssembler.AssignNode(v) (err)
-//@   assigns foreign
+//@   assigns foreign, slot(recv)
+//@   ensures err == nil ==> slotdone(recv, v.val)
 //@ interface MapAssembler.AssembleEntry(k) (va, err)
-//@   assigns foreign
-//@   ensures err == nil ==> va != nil
+//@   assigns foreign, recv.pend, recv.haskey, va.set, va.out
+//@   ensures va == nil || fresh(va)
+//@   ensures err == nil ==> va != nil && va.role == 2 && va.pm == recv && va.pl == nil && !va.set && recv.haskey && recv.pend == vstring(k)
 //@ interface MapAssembler.AssembleKey() (ka)
-//@   assigns foreign
-//@   ensures ka != nil
+//@   assigns foreign, ka.set, ka.out
+//@   ensures ka != nil && fresh(ka) && ka.role == 1 && ka.pm == recv && ka.pl == nil && !ka.set
 //@ interface MapAssembler.AssembleValue() (va)
-//@   assigns foreign
-//@   ensures va != nil
+//@   assigns foreign, va.set, va.out
+//@   ensures va != nil && fresh(va) && va.role == 2 && va.pm == recv && va.pl == nil && !va.set
 //@ interface MapAssembler.Finish() (err)
-//@   assigns foreign
+//@   assigns foreign, slot(recv.slot)
+//@   ensures err == nil ==> slotdone(recv.slot, old(recv.acc))
 //@ interface ListAssembler.AssembleValue() (va)
-//@   assigns foreign
-//@   ensures va != nil
+//@   assigns foreign, va.set, va.out
+//@   ensures va != nil && fresh(va) && va.role == 3 && va.pl == recv && va.pm == nil && !va.set
 //@ interface ListAssembler.Finish() (err)
-//@   assigns foreign
+//@   assigns foreign, slot(recv.slot)
+//@   ensures err == nil ==> slotdone(recv.slot, old(recv.acc))
 
 //@ interface LargeBytesNode.AsLargeBytes() (r, err)
 //@   assigns nothing
